@@ -42,7 +42,7 @@ impl PyScanSim {
         let n_pos = table.f32s.len();
         let exact = matches!(sc.matrix, MatrixSpec::Direct { exact: true, .. });
         let tags = format!("host={},tier=python{}", sc.host.as_str(), if l < m { ",L<M" } else { "" });
-        alloc::begin_run(Policy::System);
+        alloc::begin_run(sc.alloc);
         let res: Option<Value> = Python::with_gil(|py| {
             let helper = env.helper.bind(py);
             let lm = env.lightmotif.bind(py);
@@ -55,7 +55,7 @@ impl PyScanSim {
                 cpu::with_host(sc.host, || {
                     helper
                         .getattr("do_scan")
-                        .and_then(|f| f.call1((lm, values, sc.seq.as_str(), t as f64, sc.block_size)))
+                        .and_then(|f| f.call1((lm, values, sc.seq.as_str(), t as f64, sc.block_size, sc.py_poke_width.unwrap_or(0))))
                         .and_then(|v| v.extract::<String>())
                 })
             });
@@ -172,7 +172,15 @@ impl Sim for PyScanSim {
         }
         sc.nexts = 0;
         sc.then = Then::Drain;
-        sc.alloc = Policy::System;
+        sc.alloc = match idx % 5 {
+            0 | 1 => Policy::System,
+            2 => Policy::ExactPoison,
+            3 => Policy::GuardEnd,
+            _ => Policy::GuardStart,
+        };
+        if idx % 3 == 0 {
+            sc.py_poke_width = Some(r.range(2, 90));
+        }
         sc.own_buffer = false;
         sc.spare_width = 0;
         sc
@@ -185,15 +193,29 @@ impl Sim for PyScanSim {
     }
 
     fn shrink(sc: &Sc) -> Vec<Sc> {
-        ScanSim::shrink(sc).into_iter().filter(|s| s.then == Then::Drain && s.nexts == 0).collect()
+        let mut v: Vec<Sc> = ScanSim::shrink(sc).into_iter().filter(|s| s.then == Then::Drain && s.nexts == 0 && s.alloc == sc.alloc).collect();
+        if sc.py_poke_width.is_some() {
+            let mut s = sc.clone();
+            s.py_poke_width = None;
+            v.insert(0, s);
+        }
+        v
     }
 
     fn size(sc: &Sc) -> BTreeMap<&'static str, u64> {
         ScanSim::size(sc)
     }
 
+    fn needs_child(sc: &Sc) -> bool {
+        sc.alloc.is_guard()
+    }
+
+    fn death_tags(sc: &Sc) -> String {
+        format!("tier=python,poke={}", sc.py_poke_width.is_some())
+    }
+
     fn rule(_prop: &str) -> String {
-        "Python tier. Cases: the worlds of the scan simulator (sequence, matrix, threshold class, block-size class, simulated host CPU; sequences capped at 6 000 symbols) given to lightmotif.ScoringMatrix / lightmotif.stripe / lightmotif.scan(pssm, sequence, threshold=, block_size=) inside the embedded CPython and iterated to exhaustion. Oracle: as C02 (in range, exactly once, exact score, >= threshold, none missing), and only ordinary exceptions. Distinct = (host, block-size class, length class). Non-trivial = at least one expected hit or L < M.".to_string()
+        "Python tier. Cases: the worlds of the scan simulator (sequence, matrix, threshold class, block-size class, simulated host CPU; sequences capped at 6 000 symbols) given to lightmotif.ScoringMatrix / lightmotif.stripe / lightmotif.scan(pssm, sequence, threshold=, block_size=) inside the embedded CPython and iterated to exhaustion; in one world in three the same striped sequence is scored with another, possibly much wider motif after the first hit (re-sizing its matrix under the live scanner); system, poisoning and guard-page allocators. Oracle: as C02 (in range, exactly once, exact score, >= threshold, none missing), and only ordinary exceptions. Distinct = (host, block-size class, length class). Non-trivial = at least one expected hit or L < M.".to_string()
     }
 
     fn required_probes(_prop: &str, _tier: Tier) -> Vec<&'static str> {
